@@ -251,6 +251,13 @@ impl<'a> SendStream<'a> {
             .map(get_or_insert_send(max_send_data))
             .ok_or(WriteError::ClosedStream)?;
 
+        // A stream stopped by the peer never becomes writable again (no further MAX_STREAM_DATA, hence
+        // possibly no further `Writable` event): report the stop instead of waiting for connection-level
+        // credit, exactly as `Send::write` does when credit is available.
+        if let (true, Some(error_code)) = (stream.is_writable(), stream.stop_reason) {
+            return Err(WriteError::Stopped(error_code));
+        }
+
         if limit == 0 {
             trace!(
                 stream = %self.id, max_data = self.state.max_data, data_sent = self.state.data_sent,
